@@ -19,7 +19,7 @@ func (ex *Exec) val(st *State, v ssa.Value) SV {
 	case *ssa.Const:
 		return ex.constVal(st, x)
 	case *ssa.Global:
-		if x.Pkg == ex.fn.Pkg || ex.p.isOurPkg(x.Pkg) {
+		if ex.p.isOurPkg(x.Pkg) {
 			return SV{K: KPtr, Ptr: &Pointer{Kind: PGlobal, Global: x}}
 		}
 		return SV{K: KPtr, Ptr: &Pointer{Kind: PExt, Global: x}}
@@ -93,7 +93,12 @@ func (ex *Exec) step(st *State, in ssa.Instruction) []*State {
 	case *ssa.ChangeType:
 		st.vals[v] = ex.val(st, v.X)
 	case *ssa.ChangeInterface:
-		st.vals[v] = ex.val(st, v.X)
+		x := ex.val(st, v.X)
+		if classify(v.Type()).What == "any" && x.K == KScalar && x.T.Sort == SErr {
+			ex.declareFun("f_anyErr", []string{SErr}, SAny)
+			x = Scalar(App(SAny, "f_anyErr", x.T))
+		}
+		st.vals[v] = x
 	case *ssa.MakeInterface:
 		ex.stepMakeInterface(st, v)
 	case *ssa.Call:
